@@ -17,6 +17,7 @@ package main
 import (
 	"flag"
 	"fmt"
+	"net/http"
 	"net/http/httptest"
 	"reflect"
 	"runtime"
@@ -303,6 +304,17 @@ func ordTotal(sc *ordScenario) int {
 var ordWSAccept = &websocket.AcceptOptions{CompressionMode: websocket.CompressionDisabled}
 var ordWSDial = &websocket.DialOptions{CompressionMode: websocket.CompressionDisabled}
 
+// ordGate holds HTTP round trips (the websocket handshake of the upgrade) until it is opened.
+type ordGate struct {
+	base http.RoundTripper
+	open chan struct{}
+}
+
+func (g *ordGate) RoundTrip(req *http.Request) (*http.Response, error) {
+	<-g.open
+	return g.base.RoundTrip(req)
+}
+
 // ------------------------------------------------------------------ wire rig
 
 func ordWireRun(sc *ordScenario) (row ordRow) {
@@ -417,8 +429,17 @@ func ordWireRun(sc *ordScenario) (row ordRow) {
 				}
 			}
 		}
+		dialOpts := ordWSDial
+		var gate *ordGate
+		if sc.transport == "upgrading" {
+			// the websocket handshake of the upgrade is held back until the emitters are running: the
+			// events emitted while the client probes are parked in the server's polling transport and
+			// handed over to the websocket by upgradeTo while the emitters go on
+			gate = &ordGate{base: http.DefaultTransport, open: make(chan struct{})}
+			dialOpts = &websocket.DialOptions{CompressionMode: websocket.CompressionDisabled, HTTPClient: &http.Client{Transport: gate}}
+		}
 		raw, err := eio.Dial(ts.URL+"/socket.io/", &eio.Callbacks{OnPacket: rec.onPacket}, &eio.ClientConfig{
-			Transports: ordTransports(sc.transport), WebSocketDialOptions: ordWSDial,
+			Transports: ordTransports(sc.transport), WebSocketDialOptions: dialOpts,
 			UpgradeDone: func(name string) { upgraded <- name }})
 		if err != nil {
 			row.EnvErr = "eio dial: " + err.Error()
@@ -449,11 +470,39 @@ func ordWireRun(sc *ordScenario) (row ordRow) {
 			}
 			time.Sleep(300 * time.Millisecond)
 		}
-		row.TrName = raw.TransportName()
-		rec.start()
-		ordEmitAll(sc, ssock, payloads, func(int) string { return "e" })
+		if sc.transport == "upgrading" {
+			rec.start()
+			emitted := make(chan struct{})
+			go func() {
+				ordEmitAll(sc, ssock, payloads, func(int) string { return "e" })
+				close(emitted)
+			}()
+			time.Sleep(time.Duration(2+sc.seed%4) * time.Millisecond)
+			close(gate.open)
+			select {
+			case <-upgraded:
+			case <-time.After(10 * time.Second):
+				row.EnvErr = "no upgrade"
+				<-emitted
+				return
+			}
+			<-emitted
+			row.TrName = raw.TransportName()
+		} else {
+			row.TrName = raw.TransportName()
+			rec.start()
+			ordEmitAll(sc, ssock, payloads, func(int) string { return "e" })
+		}
 	}
-	row.Complete = ordWaitFor(func() bool { return int(atomic.LoadInt32(&rec.nfin)) >= total }, 30*time.Second)
+	row.Complete = ordWaitFor(func() bool {
+		if int(atomic.LoadInt32(&rec.nfin)) >= total {
+			return true
+		}
+		rec.mu.Lock()
+		failed := rec.parseErr != "" // the reference decoder already rejected a frame: nothing more to wait for
+		rec.mu.Unlock()
+		return failed
+	}, 30*time.Second) && int(atomic.LoadInt32(&rec.nfin)) >= total
 	time.Sleep(30 * time.Millisecond) // stragglers (a duplicate would show up here)
 	rec.mu.Lock()
 	rec.recording = false
